@@ -161,8 +161,8 @@ class GlobalIngestData(object):
     @classmethod
     def add_job_info(cls, source_uri: str, data_dialect: InputDialect = None) -> int:
         jobhash = zlib.crc32(str(source_uri).encode()) % 10000
-        if jobhash not in cls._jobmap:
-            cls._jobmap[jobhash] = (Path(source_uri).name, data_dialect)
+        # the registry outlives a run: the slot always describes the most recently registered source
+        cls._jobmap[jobhash] = (Path(source_uri).name, data_dialect)
         return jobhash
 
     @classmethod
